@@ -449,7 +449,7 @@ PROPS = {
                 "the class from the byte region (dumped from the real file and checked to tile it); (storedir) database directories "
                 "built by generated workloads (flushes, live commit log, value log on/off) copied while open; one bit or byte of one "
                 "table / commit-log segment / value-log file / manifest altered per run, the image opened with TreeBuilder "
-                "(AbsoluteConsistency, value-log verification Full) and all keys read by get and scan; non-trivial = a case with "
+                "(AbsoluteConsistency, value-log verification Full), every key read by get twice in the same open store (the second pass meets the caches the first one filled; a failed read does not end the pass) and then scanned: every read that succeeds must give the pristine answer; non-trivial = a case with "
                 "hundreds (table) / dozens (store) of alterations",
         "assumptions": [
             "CRC-32 detects the generated alterations (single bit, single byte): assumed in C16_block_guard, observed for every generated input",
